@@ -203,8 +203,10 @@ def r18_4_5_6(chk):
         chk.require(bool(reset) and not cls_level, "R18.4", "frame-counter-reset-per-iteration",
                     "the frame number counter is shared / not reset when iteration starts: numbering would not start "
                     "from 1 for every frame and every write", it_.where)
-        src = norm(nx.node)
-        chk.require(f"frame_number=self.{counter}" in src.replace(" ", ""), "R18.4", "frame-number-is-the-counter",
+        from ..terms import SELF as _S, A as _A, call_arg as _ca, is_call as _ic, return_alternatives as _ra
+        made = [t for _, t in _ra(chk.summary(nx))]
+        chk.require(bool(made) and all(_ic(t, "FrameData") and _ca(t, kw="frame_number") == _A(_S, counter) for t in made),
+                    "R18.4", "frame-number-is-the-counter",
                     "the record's frame number is not this frame's own counter", nx.where)
     # one generator per frame of each logical file: decided by the shared rule of C09 R09.1
     # ("frame-data-built-per-logical-file-in-order", already part of R18.1 above)
